@@ -81,6 +81,17 @@ claim("C09",
       "one step of each chain walk; where cc comes from, stamping at assert/retract and the "
       "histories quantifier are outside.",
       M + " + " + K, "DESIGN.md §4 C09", engine="mirsmt+kani")
+claim("C10",
+      "M: one step of the unification worklist. For unify_atom / unify_char / unify_structure / "
+      "unify_list / unify_partial_string / unify_f64 every path is classified by the other cell's tag: "
+      "variable cells get exactly one bind() of their own reference kind at their own location, cells "
+      "of the same kind fail exactly when an arity or name test fails (z3 over the tests as inputs), "
+      "every other kind fails; Str x Str and Lis x Lis push positionally matching argument pairs "
+      "(z3 over 64-bit indices); unify_internal routes every tag to the kernel of that kind.",
+      "the worklist as a whole (termination, tabu list / rational trees), the occurs-check variants, "
+      "attributed-variable wake-up and the 'binds nothing else' clause are outside; invariant "
+      "assumed: no Str cell is './2'.",
+      M, "DESIGN.md §4 C10", engine="mirsmt")
 claim("C11",
       "M: MachineState::trail pushes an entry of the cell's kind whenever the bound cell is "
       "older than the newest choice point (h < hb, h < b) - sufficiency, decided by z3 over all "
@@ -149,7 +160,6 @@ claim("C55",
 NOT_APPLICABLE = {
     "C07": "whole compiler + VM; needs a booted Machine; no unit smaller than 'compile and run' carries the property; symbolic execution of the WAM on a symbolic program fits no meaningful bound",
     "C08": "the same pipeline three ways plus the Prolog-level call/N dispatcher; needs a booted Machine",
-    "C10": "unify_internal needs MachineState (one bind exhausts 24 GB in CBMC) and keys an IndexSet tabu list on every compound pair (190 s per insert+lookup with concrete keys)",
     "C12": "catch/throw/setup_call_cleanup are Prolog-level over machine-level stack unwinding",
     "C14": "sort/keysort = std sort over compare_term_test (heap iterators + IndexSet); lists/assoc/ordsets/pairs are Prolog source executed by the WAM",
     "C15": "printer (HCPrinter: heap iterators + op-table IndexMap) composed with parser (Lexer/Parser bound to &mut MachineState); the token-level decisions are claimed as C55",
